@@ -95,6 +95,33 @@ theorem batch_chunks_bounded_all_histories (n : Nat) (hn : 1 ≤ n) (ds : List B
   · intro c hc; have := (hinv.1.each c hc).2.2; rw [hinv.2] at this; exact this
   · intro c hc; have := hinv.1.full c hc; rw [hinv.2] at this; exact this
 
+/-- one `Add` of the batch collector, remembering the accepted documents -/
+def addLogB (acc : Batch × List BDoc) (d : BDoc) : Batch × List BDoc :=
+  let r := acc.1.add d
+  (r.1, if r.2 = .ok then acc.2 ++ [d] else acc.2)
+
+/-- **The batch collector holds exactly the accepted samples, once each and in order**, after any
+sequence of `Add`s (across every chunk roll-over) -/
+theorem batch_faithful_log (n : Nat) (hn : 1 ≤ n) (ds : List BDoc) :
+    let r := ds.foldl addLogB (Batch.new n, [])
+    r.1.samples = r.2.map fun x => (extractDoc x).map (·.1) := by
+  have : ∀ (ds : List BDoc) (b : Batch) (acc : List BDoc), b.Inv →
+      b.samples = acc.map (fun x => (extractDoc x).map (·.1)) →
+      (ds.foldl addLogB (b, acc)).1.samples = (ds.foldl addLogB (b, acc)).2.map fun x => (extractDoc x).map (·.1) := by
+    intro ds
+    induction ds with
+    | nil => intro b acc _ h; exact h
+    | cons d ds ih =>
+      intro b acc hi h
+      simp only [List.foldl_cons]
+      have e : addLogB (b, acc) d = ((b.add d).1, if (b.add d).2 = .ok then acc ++ [d] else acc) := rfl
+      rw [e]
+      apply ih _ _ (Batch.add_inv b d hi)
+      by_cases hok : (b.add d).2 = .ok
+      · rw [if_pos hok, Batch.add_ok_appends b d hi hok, h]; simp
+      · rw [if_neg hok, Batch.add_rejected_noop b d hi hok]; exact h
+  exact this ds (Batch.new n) [] (Batch.new_inv n hn) (by simp [Batch.new, Batch.samples, Better.samples])
+
 /-! ### the streaming collector: writer ++ pending = accepted, over whole histories -/
 
 /-- the samples in the complete writes of a writer, in order -/
